@@ -191,6 +191,89 @@ func init() {
 			}
 		}
 		ex.setBool("c02CallerCtxReachesWait", all, known, "PipelineTransport.ExchangeContext, lazyDnsConnEarlyReservedExchanger.ExchangeReserved, tdcOneTimeExchanger.ExchangeReserved, TraditionalDnsConn.exchange, quicReservedExchanger.ExchangeReserved, ReuseConnTransport.ExchangeContext, reusableConn.exchange: the parameter `ctx` is never assigned or redeclared, it is what is handed to ExchangeReserved / exchange, and no other context's Done channel is waited on")
+		// ---- the waiter table of TraditionalDnsConn: the key a waiter is registered under is the key the reader looks up
+		// (uint32 of the 16-bit id that goes on the wire), and the id counter is 16 bits wide
+		bits, bitsOK := int64(0), false
+		if f := ex.file(trel); f != nil {
+			ast.Inspect(f, func(x ast.Node) bool {
+				ts, isTS := x.(*ast.TypeSpec)
+				if !isTS || ts.Name.Name != "TraditionalDnsConn" {
+					return true
+				}
+				if st, isSt := ts.Type.(*ast.StructType); isSt {
+					for _, fl := range st.Fields.List {
+						for _, nm := range fl.Names {
+							if nm.Name == "nextQid" {
+								if w, known := map[string]int64{"uint8": 8, "uint16": 16, "uint32": 32, "uint64": 64}[ex.str(fl.Type)]; known {
+									bits, bitsOK = w, true
+								}
+							}
+						}
+					}
+				}
+				return false
+			})
+		}
+		ex.setNat("c02TdcQidCounterBits", bits, bitsOK, "TraditionalDnsConn.nextQid is a uintN")
+		// every index into dc.queue inside fd, as source text
+		queueKeys := func(fd *ast.FuncDecl) (keys []string) {
+			if fd == nil {
+				return nil
+			}
+			ast.Inspect(fd.Body, func(x ast.Node) bool {
+				switch n := x.(type) {
+				case *ast.IndexExpr:
+					if ex.str(n.X) == "dc.queue" {
+						keys = append(keys, ex.str(n.Index))
+					}
+				case *ast.CallExpr:
+					if ex.str(n.Fun) == "delete" && len(n.Args) == 2 && ex.str(n.Args[0]) == "dc.queue" {
+						keys = append(keys, ex.str(n.Args[1]))
+					}
+				}
+				return true
+			})
+			return keys
+		}
+		u16Param := func(fd *ast.FuncDecl) bool {
+			return fd != nil && fd.Type.Params != nil && len(fd.Type.Params.List) >= 1 && len(fd.Type.Params.List[0].Names) == 1 &&
+				fd.Type.Params.List[0].Names[0].Name == "qid" && ex.str(fd.Type.Params.List[0].Type) == "uint16"
+		}
+		allAre := func(keys []string, want string) bool {
+			for _, k := range keys {
+				if k != want {
+					return false
+				}
+			}
+			return len(keys) > 0
+		}
+		pq := ex.fn(trel, "TraditionalDnsConn", "popQueueC")
+		dq := ex.fn(trel, "TraditionalDnsConn", "deleteQueueC")
+		keyOK := false
+		if aq != nil && pq != nil && dq != nil && tex != nil && rl != nil {
+			// addQueueC: named result `qid uint16`; every dc.queue index is uint32(qid); the successful return is `return qid, c`
+			resOK := aq.Type.Results != nil && len(aq.Type.Results.List) == 2 && len(aq.Type.Results.List[0].Names) == 1 &&
+				aq.Type.Results.List[0].Names[0].Name == "qid" && ex.str(aq.Type.Results.List[0].Type) == "uint16"
+			retOK, nRet := true, 0
+			ast.Inspect(aq.Body, func(x ast.Node) bool {
+				if rs, isRet := x.(*ast.ReturnStmt); isRet && len(rs.Results) == 2 && ex.str(rs.Results[1]) == "c" {
+					nRet++
+					if ex.str(rs.Results[0]) != "qid" {
+						retOK = false
+					}
+				}
+				return true
+			})
+			// the id handed to writeQuery and deleteQueueC is the one addQueueC returned; the reader looks up the id of the reply
+			tss, rss := stmtStrings(ex, tex.Body), stmtStrings(ex, rl.Body)
+			flow := indexOf(tss, "assignedQid, respChan := dc.addQueueC()") >= 0 && indexOf(tss, "defer dc.deleteQueueC(assignedQid, respChan)") >= 0 &&
+				indexOf(tss, "err := dc.writeQuery(q, assignedQid)") >= 0 &&
+				indexOf(rss, "rid := binary.BigEndian.Uint16(*r)") >= 0 && indexOf(rss, "resChan := dc.popQueueC(rid)") >= 0
+			keyOK = resOK && retOK && nRet == 1 && allAre(queueKeys(aq), "uint32(qid)") &&
+				u16Param(pq) && allAre(queueKeys(pq), "uint32(qid)") && u16Param(dq) && allAre(queueKeys(dq), "uint32(qid)") && flow
+		}
+		ex.setBool("c02TdcWaiterKeyIsWireId", keyOK, aq != nil && pq != nil && dq != nil && tex != nil && rl != nil,
+			"addQueueC registers the waiter under uint32(qid) and returns that qid (uint16), exchange writes and later deletes with it; popQueueC / deleteQueueC (qid uint16) index dc.queue with uint32(qid) only; readLoop looks up the id of the reply it read")
 		// ---- DoH
 		const drel = "pkg/upstream/doh/upstream.go"
 		dex := ex.fn(drel, "Upstream", "exchange")
